@@ -55,7 +55,7 @@ class Settings:
                 lit.SIG_FIG_MODE: SigFigMode.AUTOMATIC,
                 lit.SIG_FIG_VALUE: 1
             },
-            lit.MONTE_CARLO_SAMPLE_SIZE: 100000,
+            lit.MONTE_CARLO_SAMPLE_SIZE: 10000,
             lit.PLOT_DIMENSIONS: (6.4, 4.8)
         }
 
